@@ -48,21 +48,29 @@ impl<T: Write + Read + Seek> PagedWriter<T> {
 
     /// Seek to a specific physical offset in the file.
     pub fn physical_seek(&mut self, pos: u64) -> Result<()> {
+        let page = pos / PAGE_SIZE;
+        let offset = (pos % PAGE_SIZE) as usize;
+        if offset >= PAGE_PAYLOAD_SIZE {
+            Error::invalid("Cannot seek into checksum")?
+        }
+
         // Make sure we wrote any current (partial) page before seeking
         self.flush().write_err("Failed to flush before seeking")?;
 
+        let current = self
+            .writer
+            .stream_position()
+            .write_err("Failed to get position from writer")?;
         let end = self
             .writer
             .seek(SeekFrom::End(0))
             .write_err("Failed to seek to file end")?;
         if pos > end {
+            // Go back to the current page, a rejected seek must not move the writer
+            self.writer
+                .seek(SeekFrom::Start(current))
+                .write_err("Failed to seek back to current page")?;
             Error::invalid("Cannot seek after end of file")?
-        }
-
-        let page = pos / PAGE_SIZE;
-        let offset = (pos % PAGE_SIZE) as usize;
-        if offset >= PAGE_PAYLOAD_SIZE {
-            Error::invalid("Cannot seek into checksum")?
         }
 
         let page_phys_offset = page * PAGE_SIZE;
